@@ -403,6 +403,49 @@ def run(repo, rep, tier):
                 handled += 1
     rep.extra['partial_sites_handled_or_total'] = handled
 
+    # ---- time clause: work whose amount the peer chooses -----------------------------------------------------------------------
+    # A modular exponentiation pow(g, x, p) costs time cubic in the size of p.  For the fixed groups p is a constant of the tool; for group exchange the
+    # peer hands out p (KexGroupExchange.send_init_gex -> set_params -> send_init).  Rule: on every path of send_init_gex from the statement that parses the
+    # modulus to the call that installs it (set_params), a branch compares the modulus (or its length) against an upper bound -- otherwise the time one probe
+    # takes is chosen by the peer, not bounded by the timeout.
+    from sa.cfg import CFG as _CFG9
+    kd = repo.cls('kexdh', 'KexDH')
+    pows = [n for f in [x for x in kd.body if isinstance(x, ast.FunctionDef)] for n in walk_no_nested(f) if isinstance(n, ast.Call) and isinstance(n.func, ast.Name) and n.func.id == 'pow' and len(n.args) == 3]
+    rep.floor('cost', 'three-argument pow() sites in KexDH', len(pows), 1)
+    sgx = repo.func('kexdh', 'KexGroupExchange.send_init_gex')
+    rep.saw(sgx)
+    cg9 = _CFG9(sgx, exc_edges=False)
+    installs = cg9.stmts_matching(lambda st: isinstance(st, ast.Expr) and isinstance(st.value, ast.Call) and isinstance(st.value.func, ast.Attribute) and st.value.func.attr == 'set_params')
+    rep.floor('cost', 'set_params call in send_init_gex', len(installs), 1)
+    pargs = set()
+    for st_ in installs:
+        a_ = st_.stmt.value.args
+        if len(a_) == 2 and isinstance(a_[1], ast.Name):
+            pargs.add(a_[1].id)
+    if not pargs:
+        raise AnalysisError('send_init_gex: the modulus argument of set_params is not a plain local')
+    pname = sorted(pargs)[0]
+    pdefs = [n for n in walk_no_nested(sgx) if isinstance(n, ast.Assign) and any(isinstance(t, ast.Name) and t.id == pname for t in n.targets)]
+    size_names = {pname} | {x.id for d_ in pdefs for x in ast.walk(d_.value) if isinstance(x, ast.Name) and x.id.endswith('_len')}
+
+    def bounds_modulus(node):
+        if node.kind != 'branch' or not isinstance(node.stmt, (ast.If, ast.While)):
+            return False
+        for c_ in ast.walk(node.stmt.test):
+            if isinstance(c_, ast.Compare) and any(isinstance(o_, (ast.Gt, ast.GtE, ast.Lt, ast.LtE)) for o_ in c_.ops):
+                names_ = {x.id for x in ast.walk(c_) if isinstance(x, ast.Name)}
+                if names_ & size_names or any(isinstance(x, ast.Attribute) and x.attr == 'bit_length' and isinstance(x.value, ast.Name) and x.value.id == pname for x in ast.walk(c_)):
+                    return True
+        return False
+    gates9 = [n for n in cg9.nodes if bounds_modulus(n)]
+    starts9 = set()
+    for d_ in pdefs:
+        for nd_ in cg9.nodes_of(d_):
+            starts9 |= set(nd_.succ)
+    pth9 = cg9.find_path(list(starts9), installs, avoid=gates9) if starts9 else None
+    rep.check('cost', 'the size of a peer-supplied group-exchange modulus is bounded before it is used for the exponentiation', pth9 is None and bool(starts9), sgx,
+              'send_init_gex installs the modulus the peer handed out without an upper bound on its size; send_init then computes pow(g, x, p) with an exponent as long as p: the time of one probe grows with the cube of a size the peer chooses (a 32768-bit "group" costs ~16 s, 65536 bits minutes) and is not limited by the timeout (-t)',
+              func='kexdh:KexGroupExchange.send_init_gex', stmt='peer-chosen modulus size is not bounded before the exponentiation')
     # ---- fool clause: probe isolation ------------------------------------------------------------------------------------
     for call in ('HostKeyTest.run', 'GEXTest.run'):
         cs = [n for n in walk_no_nested(au) if isinstance(n, ast.Call) and call_name(n) == call]
